@@ -8,7 +8,7 @@ package cache
 // Ghost state: /verif/specs/fs.spec (fsExists, fsMtime, clock, failBudget, ...).
 // Times are integers of nanoseconds (tns).
 
-//@ property C13: (*Cache).used, (*Cache).trimSubdir, (*Cache).Trim, (*Cache).OutputFile, (*Cache).GetFile, (*Cache).Get, (*Cache).get, get$1, (*Cache).fileName, lemma:retention
+//@ property C13: (*Cache).used, (*Cache).trimSubdir, (*Cache).Trim, (*Cache).OutputFile, (*Cache).GetFile, (*Cache).GetBytes, (*Cache).Get, (*Cache).get, get$1, (*Cache).fileName, lemma:retention
 
 // a cache entry name: "<hex>-a" (index entry) or "<hex>-d" (data file)
 //@ pure func entryName(n string) bool = len(n) >= 2 && n[len(n)-2] == '-' && (n[len(n)-1] == 'a' || n[len(n)-1] == 'd')
@@ -114,6 +114,7 @@ package cache
 //@ func (*Cache).GetBytes
 //@   names (data, e, err)
 //@   requires c != nil
+//@   at call os.ReadFile#1: requires old(failBudget) == 0 && fsExists[name] ==> fsMtime[name] > old(clock) - hour()
 //@   ensures err == nil ==> sha256A(data) == e.OutputID
 //@   ensures err != nil ==> isType(err, entryNotFoundError)
 
